@@ -382,10 +382,13 @@ class Union:
         return any(isinstance(obj, t) for t in self.types)
 
     def __eq__(self, other):
-        return self.__args__ == other.__args__
+        # The order of the members is irrelevant
+        return len(self.__args__) == len(other.__args__) and set(
+            self.__args__
+        ) == set(other.__args__)
 
     def __hash__(self):
-        return hash(self.__args__)
+        return hash(frozenset(self.__args__))
 
     def __str__(self):
         return " | ".join(map(clsstring, self.__args__))
@@ -433,10 +436,13 @@ class Intersection:
         return all(isinstance(obj, t) for t in self.types)
 
     def __eq__(self, other):
-        return self.__args__ == other.__args__
+        # The order of the members is irrelevant
+        return len(self.__args__) == len(other.__args__) and set(
+            self.__args__
+        ) == set(other.__args__)
 
     def __hash__(self):
-        return hash(self.__args__)
+        return hash(frozenset(self.__args__))
 
     def __str__(self):
         return " & ".join(map(clsstring, self.__args__))
